@@ -9,7 +9,8 @@ LEVEL = 'exploration'
 RULE = ('complete product: scope_types in {none} + all 15 ordered non-empty '
         'subsets of {system,domain,project} x presence of system scope / '
         'domain id / project id (8) x spelling of the system scope (system / '
-        'system_scope) x absent spelled as missing key or as None x '
+        'system_scope; also with the other spelling present but falsy) x '
+        'absent spelled as missing key or as None x '
         'enforce_scope on/off x do_raise on/off x check result allow/deny x '
         'policy-file override with the opposite check or none x rule by name '
         'or as a check object carrying scope_types x credentials as dict / '
@@ -58,6 +59,11 @@ def make_creds(rep, has_sys, has_dom, has_proj, spelling, absent, role):
                 c[key] = val
             elif absent == 'none':
                 c[key] = None
+        if absent == 'other-spelling-falsy':
+            # the other spelling of the system scope is present but falsy,
+            # as in a to_policy_values() mapping given creds['system']
+            other = 'system_scope' if spelling == 'system' else 'system'
+            c.setdefault(other, None)
         return c
     ctx = context.RequestContext(
         user_id='u', roles=roles,
@@ -116,7 +122,8 @@ def _rows(acc, P, enf, rule, how, st, enforce_scope, check_allows, override,
         for rep in ('dict', 'context', 'values'):
             spellings = ('system', 'system_scope') if rep == 'dict' and \
                 has_sys else ('system_scope',)
-            absents = ('missing', 'none') if rep == 'dict' else ('missing',)
+            absents = ('missing', 'none', 'other-spelling-falsy') \
+                if rep == 'dict' else ('missing',)
             for spelling in spellings:
                 for absent in absents:
                     exp = ref(st, has_sys, has_dom, enforce_scope,
